@@ -1,5 +1,5 @@
 (* C13 — shared sub-expressions are evaluated at most once between invalidations (C13_statement in proofs/MemoTheorems.v). *)
-From Grule Require Import Base Values Syntax EngineAbs Facts Eval Refinement MemoTheorems Potential CallCount CallCountExamples.
+From Grule Require Import Base Values Syntax EngineAbs Facts Eval Refinement MemoTheorems Potential CallCount CallCountExamples Printer Frame AliasExact.
 Theorem C13 : forall rules meth panics_inside mutating, C13_statement rules meth panics_inside mutating.
 Proof. exact C13_proved. Qed.
 Print Assumptions C13.
@@ -20,3 +20,11 @@ Theorem C13_run_example : forall fuel c order u es sf recs o,
   (cnt "Sum" (s_user sf) <= cnt "Sum" u + 1 + recs_cost (rule_cost cc_vars "Sum" cc_recv cc_args cc_rules) recs)%Z.
 Proof. exact cc_bound. Qed.
 Print Assumptions C13_run_example.
+
+(* no over-invalidation on flat variables: the alias relation of an assignment (access paths: a member and a literal string
+   key are one step, different literal selectors never meet) relates two flat variables exactly when they are different
+   spellings of one location *)
+Theorem C13_alias_exact : forall x y, flat_var x = true -> flat_var y = true ->
+  (may_alias x y = true <-> (Printer.var_eqb y x = false /\ norm_path (spath x) = norm_path (spath y))).
+Proof. exact alias_exact_on_flat. Qed.
+Print Assumptions C13_alias_exact.
